@@ -1456,3 +1456,50 @@ Proof.
   destruct (Nat.eqb_spec d1 d2) as [->|N]; [reflexivity|].
   destruct (Nat.ltb_spec d1 d2), (Nat.ltb_spec d2 d1); try lia; reflexivity.
 Qed.
+
+(** ** what the slippage comparison means for the amounts *)
+
+Lemma slippage_meaning got wanted sl : 0 <= got -> 0 < wanted ->
+  dec_sub dec_one (dec_quo (dec_of_int got) (dec_of_int wanted)) <= sl ->
+  2 * got * PREC >= (2 * (PREC - sl) - 1) * wanted.
+Proof.
+  intros Hg Hw H. pose proof PREC_pos as PP.
+  unfold dec_sub, dec_one, dec_of_int in H.
+  pose proof (dec_quo_bounds (got * PREC) (wanted * PREC) ltac:(nia) ltac:(nia)) as B. cbv zeta in B.
+  set (t := got * PREC * PREC * PREC / (wanted * PREC)) in *.
+  set (pc := dec_quo (got * PREC) (wanted * PREC)) in *.
+  assert (T : t * (wanted * PREC) <= got * PREC * PREC * PREC).
+  { pose proof (Z.div_mod (got * PREC * PREC * PREC) (wanted * PREC) ltac:(nia)) as E.
+    pose proof (Z.mod_pos_bound (got * PREC * PREC * PREC) (wanted * PREC) ltac:(nia)) as M.
+    fold t in E. nia. }
+  assert (T2 : t * wanted <= got * PREC * PREC) by nia.
+  assert (L : (2 * (PREC - sl) - 1) * PREC <= 2 * t) by nia.
+  assert (L2 : (2 * (PREC - sl) - 1) * PREC * wanted <= 2 * t * wanted).
+  { apply Z.mul_le_mono_nonneg_r; lia. }
+  assert (L3 : (2 * (PREC - sl) - 1) * wanted * PREC <= 2 * got * PREC * PREC) by nia.
+  nia.
+Qed.
+
+Lemma deposit_slippage_meaning des act sl : 0 <= des -> 0 < act ->
+  dec_sub (dec_quo (dec_of_int des) (dec_of_int act)) dec_one <= sl ->
+  2 * des * PREC * PREC < (2 * (PREC + sl) * PREC + PREC + 2) * act.
+Proof.
+  intros Hg Hw H. pose proof PREC_pos as PP.
+  unfold dec_sub, dec_one, dec_of_int in H.
+  pose proof (dec_quo_bounds (des * PREC) (act * PREC) ltac:(nia) ltac:(nia)) as B. cbv zeta in B.
+  set (t := des * PREC * PREC * PREC / (act * PREC)) in *.
+  set (q := dec_quo (des * PREC) (act * PREC)) in *.
+  assert (T : des * PREC * PREC * PREC < (t + 1) * (act * PREC)).
+  { pose proof (Z.div_mod (des * PREC * PREC * PREC) (act * PREC) ltac:(nia)) as E.
+    pose proof (Z.mod_pos_bound (des * PREC * PREC * PREC) (act * PREC) ltac:(nia)) as M.
+    fold t in E. nia. }
+  assert (T2 : des * PREC * PREC < (t + 1) * act) by nia.
+  assert (L : 2 * t <= 2 * (PREC + sl) * PREC + PREC) by nia.
+  assert (L2 : (2 * t + 2) * act <= (2 * (PREC + sl) * PREC + PREC + 2) * act).
+  { apply Z.mul_le_mono_nonneg_r; lia. }
+  nia.
+Qed.
+
+Lemma max_slippage_each qx qy sl : dec_sub (Z.max qx qy) dec_one <= sl ->
+  dec_sub qx dec_one <= sl /\ dec_sub qy dec_one <= sl.
+Proof. unfold dec_sub. lia. Qed.
